@@ -26,7 +26,14 @@ Second part (methods of the compiled parser that return Result):
   self.idx, string literals) is skipped without being translated: the error KIND is all the hand models keep
   `for i in a..b { .. }` with statically known bounds: a Fixpoint on fuel (b - a + 1) over i, i of type usize unless unified otherwise; the body may `return`
   (inside an if block): the loop yields Model/RustInt.loop_res (LReturn r | LDone state | LFuel) and the caller continues with the statements after the loop on LDone
-  an `if` block that contains a `return` somewhere inside but does not end in one: the rest of the function is duplicated into both branches"""
+  an `if` block that contains a `return` somewhere inside but does not end in one: the rest of the function is duplicated into both branches
+
+Third part (a method that reads the input: Parser::parse_integer):
+  the parser state is the remaining input v_self : list Z (code points) with the primitives of Model/IsoParse.v: self.current = cur v_self (0 at the end),
+  self.end() = isend v_self, self.inc(); = v_self := inc v_self.  A method that uses them takes v_self first and returns Some (value, v_self) for Ok(value)
+  `if let Some(d) = self.current.to_digit(10) { A } else { B }`: if is_digit (cur v_self) then (d := cur v_self - 48 : u32; A) else B   (radix 10: ASCII digits only)
+  a `&str` parameter is dropped (it may only occur inside the argument of Err(..))
+  `for i in a..b` with a non-constant bound: fuel S (Z.to_nat (b - a)), the exact number of iterations plus the exit test"""
 from __future__ import annotations
 
 import re
@@ -113,6 +120,11 @@ class Parser:
         return fns
 
     def ty(self):
+        if self.at("&"):
+            self.eat("&")
+            if self.eat(kind="id")[1] != "str":
+                raise Unsupported("reference type other than &str")
+            return "strref"
         if self.at("("):
             self.eat("(")
             ts = []
@@ -209,6 +221,19 @@ class Parser:
             self.eat("..")
             b = self.expr()
             return ("for", v, a, b, self.block(), pos)
+        if self.at("if") and self.peek(1)[1] == "let":
+            self.eat()
+            self.eat("let")
+            self.eat("Some")
+            self.eat("(")
+            x = self.eat(kind="id")[1]
+            self.eat(")")
+            self.eat("=")
+            e = self.expr()
+            th = self.block()
+            self.eat("else")
+            el = self.block()
+            return ("iflet", x, e, th, el)
         if self.at("if"):
             self.eat()
             c = self.expr()
@@ -290,7 +315,7 @@ class Parser:
                 if e == ("var", "self"):
                     e = ("call", m, args)
                 elif args:
-                    raise Unsupported(f"method .{m}(...) with arguments")
+                    e = ("methodargs", m, e, args)
                 else:
                     e = ("method", m, e)
             else:
@@ -456,6 +481,8 @@ class RustTr:
         if k == "var":
             if e[1] in env:
                 v = env[e[1]]
+                if v.ty == "pstate":
+                    self.fail("self used other than through self.current / self.end() / self.inc() / a method call / inside Err(..)")
                 if v.ty == "f64":
                     self.fail(f"the f64 parameter {e[1]} used other than as {e[1]}.floor() as i64")
                 if v.ty == "unset":
@@ -495,6 +522,8 @@ class RustTr:
         if k == "path":
             return self.path(e, env)
         if k == "call":
+            if e[1] == "end" and not e[2] and self.stateful:
+                return V(f"(isend {env['self'].text})", "bool")
             if e[1] not in self.funcs:
                 self.fail(f"call of {e[1]}, which is not a translated function")
             cn, ptys, rty, opt = self.funcs[e[1]]
@@ -510,7 +539,13 @@ class RustTr:
             return self.binary(e, env)
         if k == "ok":
             a = self.expr(e[1], env)
+            if self.stateful:
+                return V(f"(Some ({a.text}, {env['self'].text}))", ("result", a.ty))
             return V(f"(Some {atom(a.text)})", ("result", a.ty))
+        if k == "field" and e[1] == "current" and e[2] == ("var", "self") and self.stateful:
+            return V(f"(cur {env['self'].text})", "char")
+        if k == "call" and e[1] == "end" and not e[2] and self.stateful:
+            return V(f"(isend {env['self'].text})", "bool")
         if k == "err":
             return V("None", ("result", None))
         self.fail(f"expression form {k}")
@@ -645,6 +680,11 @@ class RustTr:
         for s in stmts:
             if s[0] == "assign" and s[1] not in acc:
                 acc.append(s[1])
+            elif s[0] == "expr" and s[1] == ("call", "inc", []) and "self" not in acc:
+                acc.append("self")
+            elif s[0] == "iflet":
+                RustTr.assigned(s[3], acc)
+                RustTr.assigned(s[4], acc)
             elif s[0] == "ifs":
                 RustTr.assigned(s[2], acc)
                 if s[3]:
@@ -659,6 +699,8 @@ class RustTr:
             if x[0] == "return":
                 return True
             if x[0] == "ifs" and (RustTr.has_return(x[2]) or (x[3] and RustTr.has_return(x[3]))):
+                return True
+            if x[0] == "iflet" and (RustTr.has_return(x[3]) or RustTr.has_return(x[4])):
                 return True
         return False
 
@@ -727,7 +769,23 @@ class RustTr:
         if kind == "break":
             self.fail("break outside the recognised position (last statement of an if block of a loop body)")
         if kind == "expr":
+            if s[1] == ("call", "inc", []) and self.stateful:
+                env2 = dict(env)
+                env2["self"] = V("v_self", "pstate")
+                return f"let v_self := (inc {env['self'].text}) in\n  " + self.block(rest, env2, k)
             self.fail("expression statement")
+        if kind == "iflet":
+            _, x, e, th, el = s
+            ok = (self.stateful and e[0] == "methodargs" and e[1] == "to_digit" and e[2] == ("field", "current", ("var", "self"))
+                  and len(e[3]) == 1 and e[3][0][0] == "lit" and e[3][0][1] == 10)
+            if not ok or not self.exits(el):
+                self.fail("if let other than `if let Some(d) = self.current.to_digit(10) { .. } else { return .. }`")
+            st = env["self"].text
+            env_t = dict(env)
+            env_t[x] = V("v_" + x, "u32")
+            a = self.block(th + rest, env_t, k)
+            b = self.block(el, env, k)
+            return f"if (is_digit (cur {st})) then (let v_{x} := ((cur {st}) - 48) in\n  {a}) else ({b})"
         if kind == "ifs":
             return self.if_stmt(s, rest, env, k)
         if kind == "while":
@@ -860,15 +918,21 @@ class RustTr:
         ity = self.tv(("for", pos))
         self.unify(av.ty, ity)
         self.unify(bv.ty, ity)
-        if av.known is None or bv.known is None or bv.known < av.known:
-            self.fail("for loop whose bounds are not static constants a <= b")
-        fuel = bv.known - av.known + 1
+        if av.known is not None and bv.known is not None:
+            if bv.known < av.known:
+                self.fail("for loop with b < a")
+            fuel = bv.known - av.known + 1
+        else:
+            fuel = f"(S (Z.to_nat ({bv.text} - {av.text})))"
         W = [w for w in self.assigned(body) if w in env]
         for x in body:
             if x[0] in ("while", "for", "tail", "break"):
                 self.fail("loop / break / tail expression directly in a for body")
         used = self.names_in(body, set())
         R = [n for n in env if not n.startswith("__decl__") and n in used and n not in W and env[n].ty not in ("unset", "f64")]
+        if bv.known is None and b[0] == "var" and b[1] not in R:
+            R.append(b[1])
+        cty = lambda n: "bool" if env[n].ty == "bool" else ("list Z" if env[n].ty == "pstate" else "Z")
         self.nloops += 1
         name = "@LOOP@"
         state = "tt" if not W else ("v_" + W[0] if len(W) == 1 else "(" + ", ".join("v_" + w for w in W) + ")")
@@ -877,8 +941,8 @@ class RustTr:
         self.ret_wrap = lambda t: f"LReturn {atom(t)}"
         btxt = self.block(body, env_b, lambda env2: " ".join([name, "fuel'"] + ["v_" + r for r in R] + [f"(v_{var} + 1)"] + [atom(env2[w].text) for w in W]))
         self.ret_wrap = None
-        params = " ".join(f"(v_{n} : {'bool' if env[n].ty == 'bool' else 'Z'})" for n in R) + f" (v_{var} : Z) " + " ".join(f"(v_{w} : Z)" for w in W)
-        sty = "unit" if not W else " * ".join("Z" for _ in W)
+        params = " ".join(f"(v_{n} : {cty(n)})" for n in R) + f" (v_{var} : Z) " + " ".join(f"(v_{w} : {cty(w)})" for w in W)
+        sty = "unit" if not W else " * ".join(cty(w) for w in W)
         body_text = (f"Fixpoint {name} (fuel : nat) {params} : loop_res ({self.coq_ret}) ({sty}) :=\n  match fuel with\n  | O => LFuel\n  | S fuel' =>\n"
                      f"    if (v_{var} <? {bv.text}) then (\n  {btxt})\n    else LDone {state}\n  end.\n")
         if body_text in self.loop_cache:
@@ -915,7 +979,15 @@ class RustTr:
             self.coq_ret = self.coq_type(fn["ret"])
             env = {}
             params = []
+            self.stateful = self.uses_state(fn["body"])
+            if self.stateful:
+                env["self"] = V("v_self", "pstate")
+                if not (isinstance(fn["ret"], tuple) and fn["ret"][0] == "result"):
+                    self.fail("a method that reads the input must return Result")
+                self.coq_ret = "option (" + self.coq_type(fn["ret"][1]) + " * list Z)"
             for p, t in fn["params"]:
+                if t == "strref":
+                    continue
                 if isinstance(t, tuple):
                     self.fail("tuple parameter")
                 env[p] = V("v_" + p, t)
@@ -932,14 +1004,22 @@ class RustTr:
         if self.fuels:
             self.fail("more fuels than loops")
         ret = fn["ret"]
-        coq_ret = self.coq_type(ret)
+        coq_ret = self.coq_ret if self.stateful else self.coq_type(ret)
         if has_loop:
             coq_ret = f"option {coq_ret}"
-        sig = " ".join(f"(v_{p} : {'bool' if t == 'bool' else 'Z'})" for p, t in params)
+        sig = ("(v_self : list Z) " if self.stateful else "") + " ".join(f"(v_{p} : {'bool' if t == 'bool' else 'Z'})" for p, t in params)
         name = self.prefix + fn["name"]
         text = f"Definition {name} {sig} : {coq_ret} :=\n  {out}.\n"
         self.funcs[fn["name"]] = (name, [t for _, t in params], ret, has_loop)
         return text
+
+    @staticmethod
+    def uses_state(x):
+        if isinstance(x, (tuple, list)):
+            if x == ("call", "inc", []) or x == ("call", "end", []) or x == ("field", "current", ("var", "self")):
+                return True
+            return any(RustTr.uses_state(y) for y in x)
+        return False
 
     @staticmethod
     def coq_type(t):
